@@ -9,23 +9,24 @@
 From AV Require Import Base.Prelude Model.Packet Model.Rekey Proofs.RekeyProofs.
 
 (* Between its own KEXINIT and its own NEWKEYS the endpoint emits only key-exchange and
-   transport-control types (exactly the complement of the deferral condition of send_packet),
-   PROVIDED time.monotonic() does not advance inside one synchronous send_packet call.
-   What is missing for the full statement is refuted below. *)
-Theorem C11_quiet_partial : forall Hf c ops,
-  forallb ext_ok ops = true -> forallb steady ops = true ->
+   transport-control types (exactly the complement of the deferral condition of send_packet) - for
+   every operation list and EVERY behaviour of time.monotonic(), including a clock that advances
+   between two readings inside one send_packet call.  [legacy c = false] selects the code as it is
+   (the rekey trigger is not evaluated for MSG_IGNORE, fix 97cb05d). *)
+Theorem C11_quiet : forall Hf c ops,
+  legacy c = false -> forallb ext_ok ops = true ->
   quiet_scan (wire_types (run Hf c ops init)) =
     Some (started (run Hf c ops init) && negb (kex_complete (sn (run Hf c ops init)))).
-Proof. exact quiet_steady. Qed.
-Print Assumptions C11_quiet_partial.
+Proof. exact quiet_always. Qed.
+Print Assumptions C11_quiet.
 
-(* Without that proviso the faithful model violates the statement: send_packet evaluates the rekey
+(* The code before 97cb05d (finding C11-1) violated the statement: send_packet evaluated the rekey
    trigger once for the packet and once more for the empty IGNORE it puts in front of it; when the
    time limit falls between the two clock readings the wire carries KEXINIT, IGNORE, CHANNEL_DATA. *)
-Theorem C11_quiet_refuted : exists c ops, forall Hf,
+Theorem C11_quiet_old_refuted : exists c ops, legacy c = true /\ forall Hf,
   forallb ext_ok ops = true /\ quiet_scan (wire_types (run Hf c ops init)) = None.
-Proof. exists race_cfg, race_ops. intros Hf. destruct (quiet_race Hf) as (A & B & _). auto. Qed.
-Print Assumptions C11_quiet_refuted.
+Proof. exists race_cfg, race_ops. split; [reflexivity|]. intros Hf. destruct (quiet_race Hf) as (A & B & _). auto. Qed.
+Print Assumptions C11_quiet_old_refuted.
 
 (* No channel data, request or open (type > 79) is lost, duplicated or reordered: at every moment
    the session packets on the wire followed by those still queued are exactly the session packets
@@ -130,7 +131,7 @@ Print Assumptions C11_newkeys_once.
 
 (* ---- non-vacuity: a busy session with a byte-triggered re-key, a crossing KEXINIT and a flush ---- *)
 Definition ex_hash (b : bytes) : bytes := [Z.of_nat (length b) mod 256; 7; 7; 7].
-Definition ex_cfg : cfg := mkC true 100 0 200 30.
+Definition ex_cfg : cfg := mkC true 100 0 200 30 false.
 Definition ex_algs : algs := mkA 5 16 1 16 4 4 4 4 4 4.
 Definition ex_D (n : Z) : op := (Send (mkP 94 20 n), []).
 Definition ex_ops : list op :=
@@ -154,3 +155,12 @@ Example C11_example_unsolicited :
   let s := run ex_hash ex_cfg ex_ops init in
   staged s = None /\ err (step ex_hash ex_cfg s (RecvNewKeys, [])) = Some E_NEWKEYS.
 Proof. vm_compute. split; reflexivity. Qed.
+
+(* the clock script that broke the old code, on the code as it is: the data packet is written before any
+   KEXINIT; once the clock has passed the limit the NEXT regular packet starts the exchange and is itself deferred *)
+Example C11_example_race_fixed :
+  let c := mkC true 1000000 50 100 30 false in
+  let s := run ex_hash c (race_ops ++ [(Tick 60, []); (Send (mkP 94 10 1), [])]) init in
+  map p_ty (skipn 4 (wire_pkts s)) = [MSG_IGNORE; 94; MSG_KEXINIT] /\ map p_tag (deferred (sn s)) = [1] /\
+  quiet_scan (wire_types s) = Some true.
+Proof. vm_compute. repeat split; reflexivity. Qed.
